@@ -12,7 +12,7 @@
 (* is model checked for two threads over the first rows; the table is      *)
 (* exported once and run by real threads (replay --checks stress).         *)
 (***************************************************************************)
-EXTENDS Universes, TLC, Json
+EXTENDS Universes, JPParse, TLC, Json
 
 LongName(c) == [i \in 1..40 |-> c]
 nA40 == LongName(97)  nB40 == LongName(98)  nC40 == LongName(99)
@@ -24,6 +24,9 @@ dStr == JArr(<<JStr(cA), JStr(<<120, 97, 98>>), JStr(cB), JStr(<<98, 97>>), JStr
 SDocs == <<dBig, dLong, dStr>>
 Pat1 == <<97, 124, 98>>
 Re(f, p) == Flt1(LTest(FALSE, EFn(f, <<ERel(<<>>), ELit(JStr(p))>>)))
+\* 600 redundant pairs of parentheses around one comparison (evaluated by all threads at the same time)
+RECURSIVE ParenN(_, _)
+ParenN(n, x) == IF n = 0 THEN x ELSE LParen(FALSE, ParenN(n - 1, x))
 SQs == << <<Child(<<SWild>>)>>,                                            \* 1  $[*]
           <<Child(<<SIndex(BigN - 1)>>)>>,                                 \* 2  $[N-1]
           <<Child(<<SSlice(300, 310, 1)>>)>>,                              \* 3  $[300:310]
@@ -36,15 +39,19 @@ SQs == << <<Child(<<SWild>>)>>,                                            \* 1 
           <<Desc(<<SName(nA40)>>)>>,                                       \* 10 $..aaaa...
           <<Child(<<SWild>>), Child(<<SName(nC40)>>)>>,                    \* 11 $[*].cccc...   (one selector: multi-selector order is D1)
           Flt1(LCmp("==", RelN(nA40), ELit(JInt(0)))),                     \* 12 $[?@.aaaa... == 0]
-          Re("match", Pat1), Re("search", Pat1) >>                         \* 13 14
+          Re("match", Pat1), Re("search", Pat1),                           \* 13 14
+          Flt1(ParenN(600, LCmp(">", ERel(<<>>), ELit(JInt(BigN - 5))))) >>  \* 15 $[?((((...(@ > N-5)...))))]
+\* strings that are NOT queries: each is handed to the parser many hundred times before the rows are evaluated
+Storm == << <<36, 91, 63, 99, 111, 117, 110, 116, 40, 49, 41, 32, 62, 32, 48, 93>>, <<36, 91, 57, 48, 48, 55, 49, 57, 57, 50, 53, 52, 55, 52, 48, 57, 57, 50, 93>>, <<36, 91, 63, 40, 64, 46, 97, 32, 61, 61, 32, 49, 32, 38, 38, 32, 108, 101, 110, 103, 116, 104, 40, 64, 46, 42, 41, 32, 62, 32, 48, 41, 93>>, <<36, 46, 97, 91>>, <<36, 91, 63, 108, 101, 110, 103, 116, 104, 40, 64, 46, 97, 41, 93>>, <<36, 91, 48, 58, 57, 48, 48, 55, 49, 57, 57, 50, 53, 52, 55, 52, 48, 57, 57, 51, 93>>, <<36, 91, 63, 109, 97, 116, 99, 104, 40, 64, 46, 97, 41, 93>> >>
+ASSUME \A k \in 1..Len(Storm) : Verdict(Storm[k]) = "invalid"
 Rows == << <<1, 1>>, <<7, 2>>, <<2, 1>>, <<8, 2>>, <<3, 1>>, <<9, 2>>, <<4, 1>>, <<10, 2>>, <<5, 1>>, <<11, 2>>, <<6, 1>>, <<12, 2>>,
-           <<13, 3>>, <<14, 3>>, <<1, 2>>, <<4, 2>> >>
+           <<13, 3>>, <<14, 3>>, <<1, 2>>, <<4, 2>>, <<15, 1>> >>
 Result(r) == LET ns == Denote(SQs[Rows[r][1]], SDocs[Rows[r][2]])
              IN [q |-> Rows[r][1], d |-> Rows[r][2], locs |-> ns, paths |-> [n \in 1..Len(ns) |-> NormalizedPath(ns[n])]]
 Table == [r \in 1..Len(Rows) |-> Result(r)]
 
 ASSUME PrintT(<<"REPLAY", ToJson([mode |-> "stress", id |-> <<Len(Rows)>>, docs |-> SDocs,
-                                  queries |-> [n \in 1..Len(SQs) |-> RenderQuery(SQs[n])], table |-> Table])>>)
+                                  queries |-> [n \in 1..Len(SQs) |-> RenderQuery(SQs[n])], table |-> Table, storm |-> Storm])>>)
 
 (* the machine: thread t walks the rows cyclically from offset t; a step is one complete call *)
 Threads == {1, 2}
